@@ -40,28 +40,38 @@ var _ Unit = (*Storage)(nil)
 func (m ResourceUnits) Add(rhs ResourceUnits) (ResourceUnits, error) {
 	res := m
 
-	if res.CPU != nil {
+	// The sum is built on copies: it must neither alias nor modify the units of m or rhs.
+	if m.CPU != nil {
+		cpu := *m.CPU
+		res.CPU = &cpu
 		if err := res.CPU.add(rhs.CPU); err != nil {
 			return ResourceUnits{}, err
 		}
-	} else {
-		res.CPU = rhs.CPU
+	} else if rhs.CPU != nil {
+		cpu := *rhs.CPU
+		res.CPU = &cpu
 	}
 
-	if res.Memory != nil {
+	if m.Memory != nil {
+		memory := *m.Memory
+		res.Memory = &memory
 		if err := res.Memory.add(rhs.Memory); err != nil {
 			return ResourceUnits{}, err
 		}
-	} else {
-		res.Memory = rhs.Memory
+	} else if rhs.Memory != nil {
+		memory := *rhs.Memory
+		res.Memory = &memory
 	}
 
-	if res.Storage != nil {
+	if m.Storage != nil {
+		storage := *m.Storage
+		res.Storage = &storage
 		if err := res.Storage.add(rhs.Storage); err != nil {
 			return ResourceUnits{}, err
 		}
-	} else {
-		res.Storage = rhs.Storage
+	} else if rhs.Storage != nil {
+		storage := *rhs.Storage
+		res.Storage = &storage
 	}
 
 	return res, nil
